@@ -532,6 +532,8 @@ namespace bxdecay0 {
             }
             bb_params_.Qbb  = 0.635;
             bb_params_.Zdbb = 44.; // Rhutenium
+            bb_params_.levelE   = 0;
+            bb_params_.itrans02 = 0;
           } else {
             if (ilevel_ < 0 || ilevel_ > 9) {
               std::cerr << "[error] "
@@ -1059,6 +1061,8 @@ namespace bxdecay0 {
             }
             bb_params_.Qbb  = 0.079;
             bb_params_.Zdbb = 58.; // Cerium
+            bb_params_.levelE   = 0;
+            bb_params_.itrans02 = 0;
           } else {
             if (ilevel_ < 0 || ilevel_ > 9) {
               std::cerr << "[error] "
@@ -1255,6 +1259,8 @@ namespace bxdecay0 {
             }
             bb_params_.Qbb  = 2.085;
             bb_params_.Zdbb = 64.; // Gadolinium
+            bb_params_.levelE   = 0;
+            bb_params_.itrans02 = 0;
           } else {
             if (ilevel_ < 0 || ilevel_ > 5) {
               std::cerr << "[error] "
